@@ -217,7 +217,14 @@ def _member_callable(space, c, variant, g):
     Es = E[:, sup]
 
     def value(x, n):
-        ce, cl = sg.locate_points(V, Es, x.reshape(3, 1), n)
+        try:
+            ce, cl = sg.locate_points(V, Es, x.reshape(3, 1), n, strict=True)
+        except sg.AmbiguousLocation as exc:
+            # generated mesh folds onto itself (coplanar overlapping elements): a callable that finds its element geometrically is
+            # not well defined there; the case is discarded (counted as rejected), it says nothing about the library
+            from vlib.pbt import Rejected
+
+            raise Rejected(str(exc))
         e = int(sup[ce[0]])
         return sg.eval_function(space, c, e, cl, gcoef)[:, 0]
 
